@@ -5,35 +5,63 @@ set -u
 cd "$(dirname "$0")"
 export CARGO_NET_OFFLINE=true
 ROOT=/verif
-BIN=$ROOT/target/release/vcheck
-LOG=$ROOT/target/build.log
+BINDIR=$ROOT/target/release
 mkdir -p $ROOT/target $ROOT/evidence $ROOT/replays
 
+# build one package of the harness workspace against /repo's current working tree
+# (path dependency: cargo detects edits under /repo and rebuilds what depends on them)
 build() {
-    # rebuilds from /repo's current working tree (path dependency; cargo detects the changes)
-    ( cd $ROOT/harness && flock $ROOT/target/.build.lock cargo build --release >"$LOG.$$" 2>&1 )
+    local pkg="$1" log="$ROOT/target/build-$1.log"
+    ( cd $ROOT/harness && flock $ROOT/target/.build.lock cargo build --release -p "$pkg" >"$log.$$" 2>&1 )
     local rc=$?
-    mv -f "$LOG.$$" "$LOG" 2>/dev/null
+    mv -f "$log.$$" "$log" 2>/dev/null
     return $rc
 }
+
+fail_build() {
+    grep -E "^error" -A 12 "$ROOT/target/build-$1.log" | head -60
+    echo "INCONCLUSIVE: $1 does not build against the current /repo tree (see $ROOT/target/build-$1.log)"
+    exit 2
+}
+
+pkg_of() { case "$1" in C19) echo vmatrix ;; *) echo vcheck ;; esac; }
 
 cmd="${1:-}"
 case "$cmd" in
   build)
-    build || { tail -40 "$LOG"; echo "INCONCLUSIVE: harness build failed"; exit 2; }
+    for p in vcheck vmatrix static_c17; do build $p || fail_build $p; done
     exit 0 ;;
   replay)
-    build || { tail -40 "$LOG"; echo "INCONCLUSIVE: harness build failed"; exit 2; }
-    exec "$BIN" replay "$2" ;;
+    f="${2:?replay file}"
+    case "$f" in
+      *C17-static-build*.log)
+        # the static Send + Sync assertions: the replay is the build itself
+        if build static_c17; then echo "replay: static_c17 compiles, Send + Sync hold"; exit 0
+        else grep -E "^error" -A 12 $ROOT/target/build-static_c17.log | head -40; echo "VIOLATION property=C17 replay=$f"; exit 1; fi ;;
+    esac
+    id=$(sed -n 's/.*"property": *"\(C[0-9]*\)".*/\1/p' "$f" | head -1)
+    p=$(pkg_of "$id")
+    build $p || fail_build $p
+    exec "$BINDIR/$p" replay "$f" ;;
   "")
     echo "usage: $0 <ID> <quick|thorough> | replay <file> | build"; exit 2 ;;
 esac
 
 ID="$cmd"
 TIER="${2:-quick}"
-if ! build; then
-    grep -E "^error" -A 12 "$LOG" | head -60
-    echo "INCONCLUSIVE: harness does not build against the current /repo tree (see $LOG)"
-    exit 2
+if [ "$ID" = "C17" ]; then
+    # compile-time half of C17: Send + Sync of the interpolator types
+    if ! build static_c17; then
+        if build ndarray-interp; then
+            cp $ROOT/target/build-static_c17.log $ROOT/replays/C17-static-build.log
+            grep -E "^error" -A 12 $ROOT/target/build-static_c17.log | head -40
+            echo "static Send + Sync assertions no longer compile although the crate itself builds"
+            echo "VIOLATION property=C17 replay=$ROOT/replays/C17-static-build.log"
+            exit 1
+        fi
+        fail_build static_c17
+    fi
 fi
-exec "$BIN" "$ID" --tier "$TIER"
+P=$(pkg_of "$ID")
+build $P || fail_build $P
+exec "$BINDIR/$P" "$ID" --tier "$TIER"
